@@ -8,7 +8,7 @@ That the O(n) recursions compute M*v and M^-1*v is arithmetic and NOT decided.  
           multiplyByMInv Pass1 inward then Pass2 outward, articulated-body inertias inward; every level, every node.
  (kinetic energy = sum over every node: shared with C15.)"""
 from ..facts import extract, units_matching, Program
-from ..columns import columns, node_sweeps
+from ..columns import index_space, NODE_UNITS, NODE_HDR, columns, node_sweeps
 
 UNITS = r"/Simbody/src/SimbodyMatterSubsystemRep\.cpp$"
 R = "SimbodyMatterSubsystemRep::"
@@ -33,8 +33,16 @@ def run(chk, tier, overlays=()):
     chk.rule("SWEEP", "the O(n) mass-matrix operators sweep the tree in the order their recursions need: an ...Inward pass runs the levels from the outermost to 0 (children before "
              "parents), an ...Outward pass from 0 upwards, every node of every level, pass 1 before pass 2")
     node_sweeps(chk, P, SWEEPS)
+    chk.rule("INDEXSPACE", "sibling agreement between the generic node template and the hand-written node classes (lone particle, weld): a pointer parameter that RigidBodyNodeSpec<dof> "
+             "reads with fromU/toU is a u-space array and must be subscripted with uIndex in every other implementation of the same virtual, one read with fromQ/toQ with qIndex")
+    nunits = units_matching(NODE_UNITS)
+    PN = Program(extract(nunits, hdr=NODE_HDR, overlays=overlays))
+    chk.units += nunits
+    chk.nfunctions += len(PN.fns)
+    index_space(chk, PN, methods={"multiplyByMPass1Outward", "multiplyByMPass2Inward", "multiplyByMInvPass1Inward", "multiplyByMInvPass2Outward"})
     chk.floor("COLUMNS", 12)
     chk.floor("SWEEP", 16)
+    chk.floor("INDEXSPACE", 6)
     chk.assumptions += ["the per-node recursions (RigidBodyNodeSpec) and therefore the values of M*v, M^-1*v, symmetry and positive definiteness are numerical and not decided"]
 
 
